@@ -39,10 +39,10 @@ CLAIMED = {
             'Decides the guard, missing-value, dispatch and delegation clauses: columns without spread are stored as exactly 0 at all 5 scaling-division sites, missing-coded cells are excluded from the five column statistics (reads and counts), options 1..5 have distinct explicit arms with a >= 0 centring gate, TensorPreprocess delegates block by block. The statistic values each option promises, zero means/unit spread and round-trip equality are NOT decided.',
             'Trusted: clang AST; ApproxEq recognised as ((v-e) < x) && (x < (v+e)); the MISSING literal from numeric.h.',
             'DESIGN.md 2/E6b-E7, 3/C10'),
-    'C15': ('guards', 'other', 'control-dependence analysis (not-missing guard over element reads and counters) in the four figures of merit, call-graph/argument identity for RMSE, index-role typing of the statistic tables',
-            'Decides only: missing-coded truths are ignored by R2/MAE/MSE/BIAS (every read and count is guarded by the test on the truth element of the same index), RMSE = sqrt(MSE) of its own arguments, and the PLS statistic tables pair prediction column q*lv+j with truth column j into cell (lv, j). Every numeric identity of the property (R2 <= 1, MAE <= RMSE, ROC/PR facts) is NOT decided.',
-            'Trusted: clang AST; ApproxEq/MISSING recognised structurally; role seeds of lsv/layout.py.',
-            'DESIGN.md 2/E5,E7, 3/C15'),
+    'C15': ('guards+reduce', 'other', 'reduction-form abstraction (each figure of merit becomes a closed form over sums on the non-missing truths, composed symbolically and normalised as polynomials; nothing executed) plus control-dependence analysis (not-missing guard over element reads, counters and count divisors), call-graph/argument identity for RMSE, index-role typing of the statistic tables',
+            'Decides in exact arithmetic that R2, MSE, RMSE, MAE and BIAS return their defining formulas over the non-missing truths (algebraically equal rewrites normalise to the same form; RMSE^2 = MSE, R2 = 1 and zero errors for perfect prediction, R2 <= 1, MAE <= RMSE are consequences of those formulas), that missing-coded truths are ignored (every read, count and divisor is tied to the test on the truth element of the same index), and that the PLS statistic tables pair prediction column q*lv+j with truth column j into cell (lv, j). Floating-point rounding and every ROC / precision-recall clause are NOT decided.',
+            'Trusted: clang AST; ApproxEq/MISSING recognised structurally; role seeds of lsv/layout.py; real arithmetic. A function that is not a plain reduction (running recurrences, early exits) is ANALYSIS-BROKEN, never a pass.',
+            'DESIGN.md 2/E5,E7, 3/C15, 10.6 (E14)'),
     'C08': ('offsets', 'other', 'affine-offset abstract interpretation (every small integer = class index + polynomial in class_start, branch-sensitive) checked at label/index comparisons, label stores and per-class subscripts; def-use rules dead-input and overwritten-store',
             'Decides the label/index clause for both numbering conventions (a returned label is index + class_start, every per-class array is subscripted by an index, comparisons pair a label with index + class_start), the arg-max search compares against an element of the score row or a true lower bound and the input-relevance clause of the one-vs-rest statistics (both label vectors reach the ROC inputs). Priors, means, arg-max optimality, affine invariance and AUC values are NOT decided.',
             'Trusted: clang AST; class_start in {0,1}; label containers seeded by parameter position (LDA/LDAError #1, LDAPrediction #5).',
